@@ -15,7 +15,7 @@ import glob, json, os, re, subprocess, sys, threading, time, queue, shutil
 VERIF = "/verif"
 ROOT = os.environ.get("SWEEP_ROOT", "/tmp/sweep")
 # concurrency-only changes filed under a sequential property are C05's business as well
-EXTRA = {"r7-C07-m1": ["C04"], "r6-C15-m2": ["C05"], "r5-C15-m3": ["C09"], "r5-C02-m2": ["C14"], "r5-C15-m1": ["C05"], "r5-C13-m2": ["C14"], "C15-m2": ["C05"], "r4-C15-m1": ["C05"], "C15-m1": ["C05"], "r3-C13-m1": ["C14"], "r3-C16-m1": ["C12"], "C14-m2": ["C11"]}
+EXTRA = {"r8-C15-m2": ["C05"], "r7-C07-m1": ["C04"], "r6-C15-m2": ["C05"], "r5-C15-m3": ["C09"], "r5-C02-m2": ["C14"], "r5-C15-m1": ["C05"], "r5-C13-m2": ["C14"], "C15-m2": ["C05"], "r4-C15-m1": ["C05"], "C15-m1": ["C05"], "r3-C13-m1": ["C14"], "r3-C16-m1": ["C12"], "C14-m2": ["C11"]}
 ENV = dict(os.environ, GOFLAGS="-mod=mod", GOPROXY="off", GOSUMDB="off", GOTOOLCHAIN="local")
 
 
